@@ -504,10 +504,10 @@ class Aff:
         return lo, hi
 
 
-def entails_zero(D, eqs):
+def entails_zero(D, eqs, want_residue=False):
     """is D == 0 a linear consequence of the equalities eqs (each Lin == 0)?"""
     if D.is_zero():
-        return True
+        return {} if want_residue else True
     syms = set(D)
     for e in eqs:
         syms |= set(e)
@@ -535,25 +535,36 @@ def entails_zero(D, eqs):
             k = tgt[col] / pr[col]
             for j in range(len(syms)):
                 tgt[j] -= k * pr[j]
+    if want_residue:
+        return {s: x for s, x in zip(syms, tgt) if x != 0}
     return all(x == 0 for x in tgt)
 
 
 def prove_equal(A, v, target, block, depth=0, extra=()):
     """prove value(v) == target (a Lin) at `block`, splitting non-recurrence phis by incoming edge.
-    Returns (True, None) or (False, description of the failing edge)."""
+    Three-valued: (True, None) proven; (False, why) refuted - after eliminating the known equalities the difference
+    is a non-zero constant or a non-zero combination of entry values of parameters only (free inputs: not identically
+    zero); (None, why) unknown - the difference contains values the affine domain does not interpret."""
     f = A.f
     v = tuple(v)
     I = f.inst(v)
     if I is not None and I.op == "phi" and not (I.get("scev") or {}).get("k") == "rec" and depth < 6:
+        worst = (True, None)
         for inc, pb in I.get("inc"):
             inc = tuple(inc)
             facts = list(extra) + A.facts_on_edge(pb, I.b)
             ok, why = prove_equal(A, inc, target, pb, depth + 1, facts)
-            if not ok:
+            if ok is False:
                 return False, why or ("on edge %s -> %s" % (f.blocks[pb].name, f.blocks[I.b].name))
-        return True, None
+            if ok is None and worst[0]:
+                worst = (None, why or ("on edge %s -> %s" % (f.blocks[pb].name, f.blocks[I.b].name)))
+        return worst
     D = A.value(v).add(target, -1)
     facts = list(extra) + A.facts_at(block)
-    if entails_zero(D, facts):
+    res = entails_zero(D, facts, want_residue=True)
+    if not res:
         return True, None
-    return False, "at %s: difference = %s, known equalities %s" % (f.blocks[block].name, A.names(D), [A.names(e) for e in facts])
+    why = "at %s: difference = %s, known equalities %s" % (f.blocks[block].name, A.names(D), [A.names(e) for e in facts])
+    if all(s == 1 or (isinstance(s, tuple) and s[0] == "a") for s in res):
+        return False, why
+    return None, why
